@@ -123,6 +123,8 @@ class LoopMixin:
                                             z3.And(0 <= pos(k), pos(k) < n, z3.Select(keyseq, pos(k)) == k))))
         d = IterDesc(lambda s: n, lambda s, i: Val(STR, z3.Select(keyseq, i)))
         d.keyseq, d.n, d.pos = keyseq, n, pos
+        st.ghost = dict(st.ghost)
+        st.ghost["g:keyiter:" + v.t.sexpr()] = pos
         return d
 
     # -- for -----------------------------------------------------------------------------------
